@@ -41,19 +41,8 @@ struct weekday {
 
     constexpr auto operator--(int) noexcept -> weekday { return *this -= etl::chrono::days{1}; }
 
-    constexpr auto operator+=(days const& d) noexcept -> weekday&
-    {
-        _wd += d.count();
-        _wd %= 7;
-        return *this;
-    }
-
-    constexpr auto operator-=(days const& d) noexcept -> weekday&
-    {
-        _wd -= d.count();
-        _wd %= 7;
-        return *this;
-    }
+    constexpr auto operator+=(days const& d) noexcept -> weekday&;
+    constexpr auto operator-=(days const& d) noexcept -> weekday&;
 
     [[nodiscard]] constexpr auto c_encoding() const noexcept -> unsigned { return _wd; }
 
@@ -83,20 +72,36 @@ private:
 
 [[nodiscard]] constexpr auto operator+(weekday const& lhs, days const& rhs) noexcept -> weekday
 {
-    return weekday{static_cast<unsigned>((static_cast<int32_t>(lhs.c_encoding()) + rhs.count()) % 7)};
+    auto const wdu = static_cast<long long>(lhs.c_encoding()) + rhs.count();
+    auto const wk  = (wdu >= 0 ? wdu : wdu - 6) / 7;
+    return weekday{static_cast<unsigned>(wdu - wk * 7)};
 }
 
 [[nodiscard]] constexpr auto operator+(days const& lhs, weekday const& rhs) noexcept -> weekday { return rhs + lhs; }
 
 [[nodiscard]] constexpr auto operator-(weekday const& lhs, days const& rhs) noexcept -> weekday
 {
-    return weekday{static_cast<unsigned>((static_cast<int32_t>(lhs.c_encoding()) - rhs.count()) % 7)};
+    auto const wdu = static_cast<long long>(lhs.c_encoding()) - rhs.count();
+    auto const wk  = (wdu >= 0 ? wdu : wdu - 6) / 7;
+    return weekday{static_cast<unsigned>(wdu - wk * 7)};
 }
 
 [[nodiscard]] constexpr auto operator-(weekday const& lhs, weekday const& rhs) noexcept -> days
 {
     auto const count = static_cast<int_least32_t>(lhs.c_encoding() - rhs.c_encoding());
     return count >= 0 ? days{count} : days{count + 7};
+}
+
+constexpr auto weekday::operator+=(days const& d) noexcept -> weekday&
+{
+    *this = *this + d;
+    return *this;
+}
+
+constexpr auto weekday::operator-=(days const& d) noexcept -> weekday&
+{
+    *this = *this - d;
+    return *this;
 }
 
 inline constexpr auto Sunday    = etl::chrono::weekday{0}; // NOLINT(readability-identifier-naming)
